@@ -20,7 +20,7 @@ RULE = ("(1) EXHAUSTIVE sweep: every Unicode code point (and, for the single-byt
         "PCFGPasswordScorer tables (exact float equality - the writer uses repr); base structures likewise; the trainer's OMEN "
         "IP/CP/LN levels and alphabet must equal what the guesser's load_rules and the scorer's OmenScorer load; config.ini file "
         "lists must equal the directory listings. Non-trivial = value with a non-ASCII or whitespace character, or a ruleset with "
-        ">=3 length files; distinct = code point / hash of (list, options).")
+        ">=3 length files; distinct = code point / hash of (list, options). Scale parts: lists of 40 001 (quick) to 160 001 lines (thorough, > 4 MiB) round-tripped, and a training list of 42 000 distinct passwords (more than 32 768 rows in the OMEN tables) through the trainer and all loaders.")
 ASSUMPTIONS = ["supported encodings are the ASCII-compatible ones (utf-8, ascii, latin-1, cp1251, cp1252, koi8-r, iso-8859-2/15)",
                "utf-8-sig: PcfgGrammar as a whole cannot load such a ruleset on the unchanged tree (omen_keyspace.txt); the guesser's load_grammar and load_rules and the scorer's loaders can, and only those are compared for it",
                "a run in which the trainer does not complete is skipped and counted"]
